@@ -194,6 +194,37 @@ def cache_histories(tier='quick'):
             if any(c > 1 for c in calls.values()):
                 _fail(fails, sc, 'computes-each-example-at-most-once', calls, 'all counts <= 1')
                 return cases, fails
+    # through thread-prefetch workers: the cache sits below a multi-worker prefetch / parallel map; every epoch and every
+    # later direct access returns the first computed value, the upstream runs once per example
+    import os
+    os.environ.setdefault('OMP_NUM_THREADS', '1')
+    os.environ.setdefault('MKL_NUM_THREADS', '1')
+    import threading
+    for workers, buf in ((2, 2), (3, 4)):
+        for top in ('prefetch', 'map'):
+            cases += 1
+            calls = {}
+            counter = [0]
+            lock = threading.Lock()
+
+            def f(x):
+                with lock:
+                    calls[x] = calls.get(x, 0) + 1
+                    counter[0] += 1
+                    return (x, counter[0])
+            m = 9
+            cached = lazy_dataset.new({'k%d' % i: i for i in range(m)}).map(f).cache()
+            par = cached.prefetch(workers, buf) if top == 'prefetch' else cached.map(lambda v: v, num_workers=workers, buffer_size=buf)
+            e1 = list(par)
+            e2 = list(par)
+            direct = [cached[i] for i in range(m)] + [cached['k%d' % i] for i in range(m)]
+            sc = 'cache below %s(%d workers, buffer %d), freshly random upstream' % (top, workers, buf)
+            if [v[0] for v in e1] != list(range(m)) or e2 != e1 or direct != e1 + e1:
+                _fail(fails, sc, 'returns-the-first-computed-value', (e1, e2, direct[:m]), 'one frozen value per example, in order')
+                return cases, fails
+            if any(c != 1 for c in calls.values()) or len(calls) != m:
+                _fail(fails, sc, 'computes-each-example-at-most-once', calls, 'every count == 1')
+                return cases, fails
     # memory threshold: entries cached before the threshold stay frozen, later ones are not cached
     import psutil
     real = psutil.virtual_memory
@@ -944,6 +975,72 @@ def diskcache_lifecycles(tier='quick'):
                                 _fail(fails, sc, 'reopened with clear=True: removed at release', 'exists', 'removed')
                         if len(fails) > 4:
                             return cases, fails
+    finally:
+        shutil.rmtree(root, ignore_errors=True)
+    return cases, fails
+
+
+def _c11_child(directory, n, delay):
+    import time
+    import lazy_dataset
+    ds = lazy_dataset.new(list(range(n))).map(_c11_value).diskcache(directory, reuse=True, clear=False)
+    for i in range(n):
+        ds[i]
+        time.sleep(delay)
+
+
+def _c11_value(x):
+    return {'v': x * 10, 'payload': list(range(x, x + 50))}
+
+
+def diskcache_kill_points(tier='quick'):
+    """C11, crash points: a child process that is populating the cache is killed (SIGKILL) at a grid of instants; a new
+    dataset on the same directory with reuse=True then serves every example correctly (stored ones without recomputing,
+    none corrupt or misplaced) -- bounded: kill instants 0 .. 120 ms in steps, 12 examples."""
+    import multiprocessing
+    import os
+    import shutil
+    import signal
+    import tempfile
+    import time
+    import warnings
+    import lazy_dataset
+    warnings.simplefilter('ignore')
+    fails, cases = [], 0
+    n = 12
+    ctx = multiprocessing.get_context('fork')
+    root = tempfile.mkdtemp(prefix='verif_c11k_')
+    try:
+        instants = (0.0, 0.02, 0.05, 0.09) if tier == 'quick' else tuple(i * 0.01 for i in range(0, 16))
+        for t in instants:
+            cases += 1
+            d = os.path.join(root, 'k%d' % cases)
+            p = ctx.Process(target=_c11_child, args=(d, n, 0.008))
+            p.start()
+            time.sleep(t)
+            try:
+                os.kill(p.pid, signal.SIGKILL)
+            except ProcessLookupError:
+                pass
+            p.join(5)
+            sc = 'child populating %d examples killed after %.0f ms, then reopened with reuse=True' % (n, t * 1000)
+            calls = []
+
+            def f(x, calls=calls):
+                calls.append(x)
+                return _c11_value(x)
+            try:
+                ds = lazy_dataset.new(list(range(n))).map(f).diskcache(d, reuse=True, clear=True)
+                stored = len(ds._cache)
+                got = [ds[i] for i in range(n)]
+            except Exception as e:      # noqa
+                _fail(fails, sc, 'a killed writer leaves a usable cache', '%s: %s' % (type(e).__name__, str(e)[:100]), 'values')
+                continue
+            if got != [_c11_value(i) for i in range(n)]:
+                _fail(fails, sc, 'never serves a corrupt or misplaced example', got, 'pipeline values')
+            if len(calls) != n - stored:
+                _fail(fails, sc, 'stored examples are served without recomputing', 'stored=%d recomputed=%d' % (stored, len(calls)), 'recomputed = %d' % (n - stored))
+            del ds
     finally:
         shutil.rmtree(root, ignore_errors=True)
     return cases, fails
